@@ -30,10 +30,22 @@ def judge(r: Result, s: str, where: str):
     t0 = time.time()
     single = False
     accepted = False
+    a = None
     try:
         a = pt.parse(s)
         accepted = True
         single = isinstance(a, pt.ProFormaAnnotation)
+    except ValueError:
+        pass
+    except RecursionError:
+        r.fail('parsing never fails with an unrelated exception', f'C09/{where}/RecursionError', string=s)
+    except Exception as e:  # noqa
+        frame = _lib_frame(e.__traceback__) or 'outside-library'
+        r.fail('parsing either returns an annotation or raises a ValueError', f'C09/{where}/{type(e).__name__}/{frame}', string=s,
+               error=str(e)[:120])
+    try:
+        if a is None:
+            raise ValueError('rejected')
         out = a.serialize()
         if not isinstance(out, str):
             r.fail('an accepted string yields something that can be serialized', f'C09/{where}/serialize-type', string=s, got=type(out).__name__)
@@ -44,14 +56,10 @@ def judge(r: Result, s: str, where: str):
                 r.fail('an accepted string yields something that can be serialized', f'C09/{where}/modification-on-no-residue', string=s,
                        positions=sorted(im), length=len(ann.sequence), serialized=out)
                 break
-    except ValueError:
-        pass
-    except RecursionError:
-        r.fail('parsing never fails with an unrelated exception', f'C09/{where}/RecursionError', string=s)
     except Exception as e:  # noqa
-        frame = _lib_frame(e.__traceback__) or 'outside-library'
-        r.fail('parsing either returns an annotation or raises a ValueError', f'C09/{where}/{type(e).__name__}/{frame}', string=s,
-               error=str(e)[:120])
+        if a is not None:  # an accepted string must be serializable: here even a ValueError is a failure
+            r.fail('an accepted string yields something that can be serialized', f'C09/{where}/serialize-raises-{type(e).__name__}', string=s,
+                   error=str(e)[:120])
     dt = time.time() - t0
     if dt > 10:
         r.fail('parsing never hangs', f'C09/{where}/slow', string=s, seconds=dt)
@@ -108,6 +116,8 @@ BAD_VALUES = ['Foo', 'U:Foo', 'M:Foo', 'X:Foo', 'Glycan:Foo', 'Formula:Xx2', 'Ob
               'Obs:nan', 'Obs:inf', 'Obs:1_0', 'U:+inf', 'U:+1_0', 'M:+nan', 'X:+1_0',
               # unbalanced brackets inside a formula (balanced for the surrounding notation in the labile position)
               'Formula:C]', 'Formula:[[13C]]', 'Formula:]', 'Formula:C2]H',
+              # a second colon: everything after the FIRST colon is the value
+              'Formula::Foo', 'Formula:C:Foo', 'Obs:5:3', 'Obs:+5:x', 'Glycan::Hex', 'Glycan:Hex:Foo',
               # case variants of resolvable spellings (names, formulas and glycan names are case-sensitive)
               'acetyl', 'OXIDATION', 'phospho', 'ACETYL', 'Formula:c2h2o', 'Glycan:hexnac', 'U:acetyl', 'carbamidomethyl']
 WARM_UP = ['Acetyl', 'Oxidation', 'Phospho', 'Formula:C2H2O', 'Glycan:HexNAc', 'U:Acetyl', 'Carbamidomethyl']
@@ -159,7 +169,8 @@ def check_deferred(case) -> Result:
         if any(c in v for c in '[]<>{}'):
             continue  # a bracket inside the value changes what the surrounding notation reads as the value: only "returns or raises cleanly"
         same = (abs(got - base) < 1e-9) if isinstance(got, (int, float)) else (got == base)
-        if not same and pos != 'isotope' and fn_name != 'comp':  # (a composition may legitimately echo a spelled but unknown element)
+        echoes_unknown = fn_name == 'comp' and isinstance(got, dict) and any(k not in base for k in got)
+        if not same and pos != 'isotope' and not echoes_unknown:  # (a composition may echo a spelled but unknown element: not demanded)
             # the corpus values are unresolvable by the independent reference (pv/refmods.py): a value, even a non-zero one, is wrong
             try:
                 refmods.resolve(v)
